@@ -175,7 +175,7 @@ class C17(Prop):
         "p:stored-pruned", "p:cond-raised", "d:peptide", "d:short", "d:evicted", "d:canary",
         "m:pruned-old", "m:prune-kept", "m:imported", "m:import-full", "m:reimport", "m:roundtrip",
         "m:forgot", "m:forgot-nothing", "m:recall-hit", "m:recall-miss", "d:cleared",
-        "e:sysdef", "e:rreg", "e:creg", "e:cexec", "e:cexec-failed", "e:cexec-unregistered", "e:unregistered", "k:health", "k:cell", "k:stats", "k:export", "k:repr", "k:agents", "k:tpeek",
+        "e:sysdef", "e:sset", "e:rreg", "e:creg", "e:cexec", "e:cexec-failed", "e:cexec-unregistered", "e:unregistered", "k:health", "k:cell", "k:stats", "k:export", "k:repr", "k:agents", "k:tpeek",
     ]
     assumptions = [
         "fingerprint hashes are compared as opaque values (md5 prefixes treated as injective on the strings explored)",
@@ -825,6 +825,10 @@ class C17(Prop):
                 elif op == "mset" and len(t) == 2:
                     ims().memory.capacity = int(t[1])
                     o = "ok"
+                elif op == "sset" and len(t) == 3:
+                    ims().thymus.tolerance = float(F(t[1]))               # read by the next train_agent
+                    ims().thymus.variance_threshold = float(F(t[2]))
+                    o = "ok"
                 elif op == "updated" and len(t) == 2:
                     ims().mark_agent_updated(f"a{int(t[1])}")
                     o = "ok"
@@ -1354,6 +1358,9 @@ class C17(Prop):
                 lines.append(f"preset {a}")
             elif x < 0.88:
                 # retrain on whatever the agent shows now, then inspect the same window
+                if rng.random() < 0.2:
+                    tol = rng.choice([F(2), F(1), F(1, 2), F(3), F(0)])     # the thymus is re-tuned first (attributes assigned)
+                    lines.append(f"sset {show_rat(tol)} {show_rat(rng.choice([F(1, 2), F(1, 2), F(2), F(0), F(-1)]))}")
                 if rng.random() < 0.5:
                     if rng.random() < 0.15:
                         scs[a] = pick_scale(rng)           # the agent starts reporting on another scale, then is retrained
@@ -1706,8 +1713,11 @@ class C17(Prop):
             lines.append(f"pinspect {a}")
 
         def emit_train():
-            nonlocal trained
+            nonlocal trained, tol
             fp = fingerprint()
+            if trained is not None and rng.random() < 0.15:
+                tol = rng.choice([F(2), F(1), F(3), F(0)])            # thymus re-tuned by assignment before retraining
+                lines.append(f"sset {show_rat(tol)} 1/2")
             lines.append(f"train {a}")
             if fp is not None and mn >= 1:
                 pr = self.believed_profile([fp[:6] + (0, 0) + fp[8:]], (F(0), F(0), F(0)), tol)
